@@ -102,6 +102,26 @@ CHECKS.update({
             "DESIGN.md 4/C17"),
 })
 
+CHECKS.update({
+    "C15": ("fault_enumeration",
+            "exhaustive crash-point x torn-write and single-OSError enumeration over the recorded file-system effect log of the real migration code, with recovery (re-run) oracle",
+            "For `tally up --migrate`, `tally init` and run_migrations on 28 budget variants the command runs under a harness-side file-system interposer that numbers every create / "
+            "flush / append / rename / mkdir / remove; for every effect k the run is repeated with a crash right after k (plus data torn to half / nothing when k lands data) and with an "
+            "OSError instead of k. Each resulting tree must keep every user file's bytes, must classify the probe statement with the user's rules either directly or after one fault-free "
+            "re-run of the same command, and must never classify everything as Unknown while the rules exist on disk. The interposer is checked for transparency and for unowned effects "
+            "on every case.",
+            "crash = no later effect reaches the disk; no OS-level write reordering (tally never fsyncs); effects are those reachable through open/os.rename/replace/mkdir/remove",
+            "DESIGN.md 4/C15"),
+    "C20": ("model_checking",
+            "explicit-state level-synchronous BFS over budget directory trees with the real CLI commands as transitions (forked processes), tree-hash visited set, frame-condition invariant on every transition",
+            "From 9 initial budget trees (new/old layout, missing views/rules, legacy CSV with rules / header only / with existing backup and unreferenced merchants.rules, CRLF and "
+            "trailing-blank settings) all 13 commands (up in 4 output modes, explain x2, discover x2, diag, inspect, init, init <dir>, up --migrate) are applied to every reachable tree "
+            "up to depth 3 (quick) / 6 or fixpoint (thorough); read-only commands must leave every file outside the output location byte-identical and create nothing outside it; init / "
+            "--migrate must keep every user file (settings may only grow, the legacy CSV may only move to a fresh .bak* with identical bytes).",
+            "non-interactive runs; bytes of tally-created files and the output location are not judged",
+            "DESIGN.md 4/C20"),
+})
+
 NOT_YET = {}
 
 PROPS = [json.loads(l)["id"] for l in open(os.path.join(ROOT, "properties.jsonl"))]
